@@ -51,6 +51,10 @@ class Prop(common.PropertyCheck):
             data, layout = fcswriter.build(spec)
             for cut in range(len(data)):
                 yield {'k': 'trunc', 'spec': spec, 'cut': cut}
+            # the same cuts inside DATA with the file handed over as an open file object instead of a name
+            db, de = layout['segs']['D']
+            for cut in range(db, min(de + 2, len(data))):
+                yield {'k': 'trunc', 'spec': spec, 'cut': cut, 'via': 'fileobj'}
             D = len(spec['widths'])
             fields = ['$TOT', '$PAR'] + ['$P%dB' % (i + 1) for i in range(D)] + \
                      ['hdr:text_begin', 'hdr:text_end', 'hdr:data_begin', 'hdr:data_end']
@@ -74,6 +78,14 @@ class Prop(common.PropertyCheck):
                 for f in fs:
                     if f in fields:
                         for pos in positions:
+                            yield {'k': 'corrupt', 'spec': spec, 'field': f, 'delta': ['to', pos]}
+                # the first byte moved onto every later delimiter of the segment (a well-formed remainder starts there) and into the first pairs
+                dl = ord(spec['delim'])
+                delims = [q for q in range(b + 1, e) if data[q] == dl]
+                early = list(range(b + 1, min(e, b + 60))) if self.tier == 'thorough' else sorted(rng.sample(range(b + 1, min(e, b + 60)), min(6, max(0, min(e, b + 60) - b - 1))))
+                for f in fs:
+                    if f in fields and 'begin' in f.lower():
+                        for pos in sorted(set(delims + early)):
                             yield {'k': 'corrupt', 'spec': spec, 'field': f, 'delta': ['to', pos]}
 
     # ---- helpers ----------------------------------------------------------------
@@ -160,7 +172,7 @@ class Prop(common.PropertyCheck):
         data, layout, intact = self.intact(spec)
         if case['k'] == 'trunc':
             d2 = data[:case['cut']]
-            r = fcsgen.load_bytes(d2, want_fcsdata=False)
+            r = fcsgen.load_bytes(d2, want_fcsdata=False, via=case.get('via', 'name'))
             r['file'] = list(d2)
             return r
         d2, change = self.corrupt(spec, case['field'], case['delta'])
@@ -187,7 +199,7 @@ class Prop(common.PropertyCheck):
         if 'err' in impl:
             return None
         if case['k'] == 'trunc':
-            where = 'cut at byte %d of %d' % (case['cut'], len(data))
+            where = 'cut at byte %d of %d%s' % (case['cut'], len(data), ' (passed as an open file object)' if case.get('via') == 'fileobj' else '')
             if impl['data'] != intact['data'] or impl['shape'] != intact['shape']:
                 return '%s: loaded a different matrix %s %s (intact %s)' % (where, impl['shape'], str(impl['data'])[:80], intact['shape'])
             if impl['text'] != intact['text']:
